@@ -66,7 +66,37 @@ def w_C05_bad_separator_loses_batch():
     return bad, "rebalance(%r) returned %d rows (one batch) and %d rows with batch_size=1: can_parse raises on a string without exactly one '>>' and the whole batch is discarded" % (rows, len(out), len(out2))
 
 
+def _hcount(smi):
+    from rdkit import Chem
+
+    m = Chem.MolFromSmiles(smi)
+    return None if m is None else sum(a.GetTotalNumHs() for a in m.GetAtoms())
+
+
+def w_C15_hydride():
+    from synrbl.SynUtils.chem_utils import remove_atom_mapping
+
+    res = []
+    for smi in ("[PH5]", "C[SH2]C", "C[PH2](C)C", "[IH3]"):
+        out = remove_atom_mapping(smi)
+        res.append((smi, out, _hcount(smi), _hcount(out)))
+    bad = all(a is not None and a != b for (_, _, a, b) in res)
+    return bad, "remove_atom_mapping changes the molecule: " + "; ".join("%s -> %s (%s H -> %s H)" % r for r in res)
+
+
+def w_C15_aromatic():
+    from rdkit import Chem
+    from synrbl.SynUtils.chem_utils import remove_atom_mapping
+
+    smi = "c1ccccc:1"
+    out = remove_atom_mapping(smi)
+    bad = Chem.MolFromSmiles(smi) is not None and Chem.MolFromSmiles(out) is None
+    return bad, "remove_atom_mapping(%r) = %r: the ring-closure digit after an aromatic-bond ':' is eaten; valid input, unparsable output" % (smi, out)
+
+
 WITNESSES = {
+    "C15-hypervalent-hydride-unbracketed": ("C15", w_C15_hydride),
+    "C15-aromatic-bond-before-ring-digit": ("C15", w_C15_aromatic),
     "C05-unparsable-row-dropped": ("C05", w_C05_unparsable_row_dropped),
     "C05-bad-separator-loses-batch": ("C05", w_C05_bad_separator_loses_batch),
     "C01-nonunit-reagent-template": ("C01", w_C01_nonunit_reagent_template),
